@@ -379,7 +379,9 @@ pub fn run_c05(opts: &Opts, out: &mut Emitter) {
 
 pub fn run_c20(opts: &Opts, out: &mut Emitter) {
     let mut r = Rng::new(opts.seed ^ 0x2020);
-    let pp = || store::pparams(false, 44, 155_381, 4310, true);
+    // (the price per byte varies: around 290 the min-utxo of a plain output sits on a CBOR width boundary, where the
+    // rounds can settle on more than one amount - and must settle on the same one whatever came before)
+    let cpb_of = |k: usize| -> u64 { [4310u64, 289, 290, 291, 4310, 1, 288, 292][k % 8] };
     let mk_template = |r: &mut Rng| -> Template {
         if r.chance(1, 4) {
             validity_template(r.below(5) as usize)
@@ -410,7 +412,20 @@ pub fn run_c20(opts: &Opts, out: &mut Emitter) {
         let amt = if r.chance(1, 8) { 10 } else { r.range(20_000_000, 90_000_000) as i128 };
         plans.push((h, (t, *r.pick(&[1_000_000i128, 3_000_000]), if amt == 10 { vec![amt] } else { vec![amt, 7_000_000] })));
     }
-    for (k, (history, target)) in plans.into_iter().enumerate() {
+    // the price per byte swept across the range where the min-utxo of a small output crosses a CBOR width (65535 /
+    // 65536 lovelace): there the rounds have two fixed points, and which one they reach must not depend on what the
+    // instance resolved before
+    let mut priced: Vec<(u64, (Vec<(Template, i128, Vec<i128>)>, (Template, i128, Vec<i128>)))> = vec![];
+    for cpb in 280u64..=420 {
+        for outs in [0usize, 1] {
+            priced.push((cpb, (vec![(min_utxo_template(outs), 1_000_000, vec![90_000_000, 7_000_000]), (template(2, 1), 1_000_000, vec![90_000_000, 7_000_000])],
+                               (min_utxo_template(outs), 1_000_000, vec![90_000_000, 7_000_000]))));
+        }
+    }
+    let n_random = plans.len();
+    let all_plans: Vec<(Option<u64>, (Vec<(Template, i128, Vec<i128>)>, (Template, i128, Vec<i128>)))> =
+        plans.into_iter().map(|p| (None, p)).chain(priced.into_iter().map(|(c, p)| (Some(c), p))).collect();
+    for (k, (fixed_cpb, (history, target))) in all_plans.into_iter().enumerate() {
         let Some(target_tx) = lower(&target.0) else { continue };
         let hist: Vec<(tir::Tx, i128, Vec<i128>)> = history
             .iter()
@@ -427,7 +442,10 @@ pub fn run_c20(opts: &Opts, out: &mut Emitter) {
         } else {
             (target_tx, args_for(target.1))
         };
-        out.case(if k == 0 { "corpus" } else if preapplied { "random-preapplied" } else { "random" }, || {
+        let cpb = fixed_cpb.unwrap_or_else(|| cpb_of(k));
+        let pp = || store::pparams(false, 44, 155_381, cpb, true);
+        let preapplied = preapplied && k < n_random;
+        out.case(if fixed_cpb.is_some() { "width-boundary" } else if k == 0 { "corpus" } else if preapplied { "random-preapplied" } else { "random" }, || {
             // fresh instance
             let mut fresh = Tracing::new(store::compiler(pp(), Some(0)));
             let fresh_res = resolve_outcome(&mut fresh, &target_tx, &target_args, &store_with(&target.2), 3);
@@ -442,7 +460,7 @@ pub fn run_c20(opts: &Opts, out: &mut Emitter) {
             // also straight compile() calls in the history (the state is set by compile, not only by resolve_tx)
             json!({"history": history.iter().map(|(t, q, a)| json!({"src": t.src, "q": int(*q), "store": a.iter().map(|x| int(*x)).collect::<Vec<_>>()})).collect::<Vec<_>>(),
                    "history_results": hist_res,
-                   "target": {"src": target.0.src, "q": int(target.1), "store": target.2.iter().map(|x| int(*x)).collect::<Vec<_>>()},
+                   "target": {"src": target.0.src, "q": int(target.1), "store": target.2.iter().map(|x| int(*x)).collect::<Vec<_>>(), "coins_per_byte": cpb},
                    "obs": {"fresh": fresh_res, "used": used_res, "trace_fresh": fresh.take(), "trace_used": used.take()}})
         });
     }
